@@ -1,6 +1,7 @@
 """C02 - values are matched by coordinates, not by position or file order."""
 from .. import form, q, trace
-from ..core import AnalysisError
+import ast
+from ..core import AnalysisError, const, dotted, norm
 from ..form import Rat
 
 EXPLANATION = (
@@ -338,12 +339,72 @@ def check_order(ctx):
            msg="self._inputs is built as %s" % [k[:40] for k in keys])
 
 
+def _hashed_fields(prog):
+    """The attributes Location.__hash__ reads (the identity of a coordinate object while it sits in a set or keys a dictionary)."""
+    h = prog.own_method("verif.location.Location.__hash__")
+    return sorted(set(n.attr for n in ast.walk(h) if isinstance(n, ast.Attribute) and dotted(n.value) == "self"))
+
+
+def _field_writes(tree, fields):
+    """(node, object source, field) for every write of one of ``fields`` on an object: assignment, augmented assignment, del, setattr."""
+    out = []
+    for n in ast.walk(tree):
+        if isinstance(n, ast.Attribute) and isinstance(n.ctx, (ast.Store, ast.Del)) and n.attr in fields:
+            out.append((n, norm(n.value), n.attr))
+        elif isinstance(n, ast.Call) and dotted(n.func) in ("setattr", "delattr", "object.__setattr__") and len(n.args) >= 2 \
+                and (const(n.args[1]) in fields or const(n.args[1]) is None):
+            out.append((n, norm(n.args[0]), const(n.args[1]) or "<computed name>"))
+        elif isinstance(n, ast.Call) and isinstance(n.func, ast.Attribute) and n.func.attr == "update" \
+                and isinstance(n.func.value, ast.Attribute) and n.func.value.attr == "__dict__":
+            out.append((n, norm(n.func.value.value), "__dict__.update"))
+    return out
+
+
+def check_location_identity(ctx):
+    """Coordinate objects are immutable where it matters: the fields a Location hashes are written only by its constructor.
+    Locations are collected in sets and key the reader's and the dataset's lookups; a write after construction leaves the object
+    filed under its old hash, so rows stored under it are no longer found for its coordinates."""
+    prog = ctx.prog
+    fields = _hashed_fields(prog)
+    ctx.need(len(fields) >= 2, "verif.location.Location.__hash__: the hashed fields were not recognised")
+    ctor = prog.own_method("verif.location.Location.__init__")
+    set_in_ctor = set(f for (_n, obj, f) in _field_writes(ctor, fields) if obj == "self")
+    ctx.ob("C02.5", "verif.location.Location.__init__", set_in_ctor == set(fields), "the constructor sets every hashed field %s" % fields,
+           msg="hashed fields %s are not all set by the constructor (%s)" % (fields, sorted(set_in_ctor)))
+    # control: the detector recognises each kind of write
+    probe = ast.parse("loc.%s = 1\ninfo[k].%s += 1\nsetattr(x, '%s', 2)\ndel y.%s\n" % (fields[0], fields[0], fields[0], fields[0]))
+    ctx.control("C02.5", len(_field_writes(probe, fields)) == 4, "assignment, augmented assignment, setattr and del of a hashed field are all recognised")
+    nfun = 0
+    for qual, m, c, f in prog.all_functions():
+        nfun += 1
+        in_location = c is not None and c.qual == "verif.location.Location"
+        writes = _field_writes(f, fields)
+        for n, obj, fld in writes:
+            if obj == "self" and not in_location:
+                continue          # another class's own attribute of the same name
+            ok = in_location and f.name == "__init__" and obj == "self"
+            ctx.ob("C02.5", qual, ok, "hashed field of a Location written only in its constructor", loc=prog.loc(m, n),
+                   msg="%s.%s is written after construction: Location objects are hashed on %s and sit in sets / key dictionaries, so the "
+                       "object stays filed under its old coordinates" % (obj, fld, "/".join(fields)),
+                   sample={"rule": "C02.5", "function": qual, "object": obj, "field": fld})
+    for m in prog.modules.values():          # module-level statements
+        for st in m.tree.body:
+            if isinstance(st, (ast.FunctionDef, ast.ClassDef)):
+                continue
+            for n, obj, fld in _field_writes(st, fields):
+                ctx.ob("C02.5", m.name, False, "hashed field of a Location written only in its constructor", loc=prog.loc(m, n),
+                       msg="%s.%s is written at module level" % (obj, fld))
+    ctx.sample({"rule": "C02.5", "hashed_fields": fields, "functions_scanned": nfun})
+
+
 def run(ctx):
     ctx.rule("C02.1", "value -> first index in the input's own values; sibling loops agree; lists returned in input order")
     ctx.rule("C02.2", "time/leadtime/location index lists subscript positions 0/1/2 (checked on the cache stores, see C01.3)")
     ctx.rule("C02.4", "file order is preserved from the command line to the dataset; climatology last")
+    ctx.rule("C02.5", "the fields a Location is hashed on are written only by its constructor (who-may-write, whole program)")
     check_common_indices(ctx)
     check_order(ctx)
+    check_location_identity(ctx)
     # C02.2 is evaluated on the same stores as C01.3
     from . import c01
     sub = type(ctx)(ctx.prog, "C01", ctx.tier, True)
